@@ -64,6 +64,33 @@ class _Resp:
         return False
 
 
+class _BrokenResp(_Resp):
+    """The connection breaks while the body is being read."""
+
+    def __init__(self, body: bytes, how: str):
+        super().__init__(body)
+        self._how = how
+
+    def read(self, *a):
+        import http.client
+        if self._how == "reset":
+            raise ConnectionResetError(104, "Connection reset by peer (scripted)")
+        if self._how == "timeout":
+            raise TimeoutError("The read operation timed out (scripted)")
+        raise http.client.IncompleteRead(self._b.getvalue()[:10], 100)
+
+
+def scripted(ident: str, out: str, u: str):
+    """The stub network's answer for one identifier: ok | http | conn | reset | timeout | short."""
+    if out == "ok":
+        return _Resp(body_of(ident).encode())
+    if out == "http":
+        raise urllib.error.HTTPError(u, 404, "Not Found", None, None)
+    if out in ("reset", "timeout", "short"):
+        return _BrokenResp(body_of(ident).encode(), out)
+    raise urllib.error.URLError("connection refused (scripted)")
+
+
 def run_case(case: dict) -> list:
     d = core.scratch_dir("c19-")
     events = []
@@ -95,12 +122,7 @@ def run_case(case: dict) -> list:
             name = u.rsplit("/", 1)[-1]
             ident = name[:-4] if name.endswith(".txt") else name
             netlog.append(ident)
-            out = case["net"].get(ident, "http")
-            if out == "ok":
-                return _Resp(body_of(ident).encode())
-            if out == "http":
-                raise urllib.error.HTTPError(u, 404, "Not Found", None, None)
-            raise urllib.error.URLError("connection refused (scripted)")
+            return scripted(ident, case["net"].get(ident, "http"), u)
 
         urllib.request.urlopen = fake_urlopen
         for k, step in enumerate(case["steps"], 1):
@@ -167,9 +189,8 @@ def run(ctx: core.Ctx) -> int:
     q = ctx.quick
     rnd = random.Random(ctx.seed)
     ctx.assumptions += [
-        "the network is urllib.request.urlopen replaced by a scripted stub (per identifier: body, HTTP 404, connection error)",
-        "a failure while the response body is being read is not scripted (the tool lets that exception escape; the property "
-        "only asks for the exit status and the absence of a partial file)",
+        "the network is urllib.request.urlopen replaced by a scripted stub (per identifier: body, HTTP 404, connection refused, "
+        "connection reset / timeout / short read while the body is being read)",
         "the destination prescribed by the documentation is <root>/LICENSES/<id>.txt, or the --output path",
     ]
     mc = ctx.mc("Download", "MC_C19.cfg")
@@ -185,6 +206,9 @@ def run(ctx: core.Ctx) -> int:
         plus = gi % 4 == 1
         given = [(i + "+") if plus and not i.startswith("LicenseRef-") else i for i in req]
         net = {pick[i]: o for i, o in g["net"].items()}
+        for kk, ident in enumerate(sorted(net)):      # a connection can also break while the text is being read
+            if net[ident] == "conn" and (gi + kk) % 3:
+                net[ident] = ["reset", "timeout", "short"][(gi + kk) % 3 - 1 if (gi // 3) % 2 else 2]
         if "Nonexistent-1.0" in net:
             net["Nonexistent-1.0"] = "http"           # the SPDX repository has no such file
         existing = [pick[i[len("LICENSES/"):-4]] for i in g["existing"]]
@@ -205,7 +229,7 @@ def run(ctx: core.Ctx) -> int:
         used = rnd.sample(["MIT", "0BSD", "Apache-2.0+", "GPL-2.0", "LicenseRef-custom", "CC0-1.0"], rnd.randint(1, 4))
         base = [u.rstrip("+") for u in used]
         existing = [b for b in base if rnd.random() < 0.3]
-        net = {b: rnd.choice(["ok", "ok", "http", "conn"]) for b in base}
+        net = {b: rnd.choice(["ok", "ok", "http", "conn", "reset", "short"]) for b in base}
         missing = [u for u in used if u.rstrip("+") not in existing]
         cases.append({"tid": len(cases) + 1, "ids": {"file": used}, "licdir": "absent", "existing": existing, "source_has": [],
                       "net": net, "git": False,
